@@ -104,7 +104,7 @@ class State:
     def assume(self, cond, note=None):
         self.conds.append(cond)
         self.F.add_cond(cond)
-        if cond[0] in ("ge", "lt", "eq"):
+        if cond[0] in ("ge", "lt", "eq", "ne"):
             self.F.saturate(cond[1].symbols())
 
 
@@ -485,7 +485,7 @@ class Interp:
             if u.endswith("Unsigned::USIZE"):
                 return vsize(self.tn_lin(fr.crate, op["uneval_args"][0]["ty"]))
             if "promoted" in op:
-                return ("unknown", "promoted")
+                return self.eval_promoted(st, fr, op["promoted"])
             # non-generic named const of the crate: try the const table
             cv = self.ctx.extra.get(("const", u))
             if cv is not None:
@@ -498,6 +498,22 @@ class Interp:
         if t["k"] in ("fndef", "closure"):
             return ("fn", {"path": t["fn"], "args": [], "local": True})
         return ("unknown", "const %s" % op.get("text"))
+
+    def eval_promoted(self, st, fr, idx):
+        proms = fr.body.get("promoted") or []
+        if idx >= len(proms):
+            raise Undecided("promoted constant %d not available" % idx)
+        pb = proms[idx]
+        body = {"path": fr.body["path"] + "::promoted[%d]" % idx, "locals": pb["locals"], "blocks": pb["blocks"],
+                "arg_count": 0, "promoted": [], "span": fr.body["span"], "kind": "promoted"}
+        key = ("_promoted", idx)
+        if key not in fr.body:
+            fr.body[key] = body
+        body = fr.body[key]
+        res = self.inline(st, fr.crate, body, [], fr.depth + 1)
+        if len(res) != 1:
+            raise Undecided("promoted constant with several paths")
+        return res[0][1]
 
     # ------------------------------------------------------------ rvalues
     def eval_rvalue(self, st, fr, rv, dest_ty):
